@@ -32,6 +32,20 @@ theorem optG_ht (cfg : Cfg) (o : Option Expr) (h : Nat) : HasHt (optG cfg o) h h
   · exact HasHt.nil
   · exact (emitG_disc cfg _).2 h
 
+theorem emitVarInit_ht (cfg : Cfg) (c : IdClass) (init : Expr) (h : Nat) : HasHt (emitVarInit cfg c init) h h := by
+  unfold emitVarInit
+  split
+  · simp only [cat]
+    exact HasHt.seq (emitVarRef_ht cfg c h) (HasHt.seq (emitE_t cfg init h) (HasHt.seq (pop1_ht h rfl rfl rfl rfl) HasHt.nil))
+  · exact HasHt.seq (emitE_t cfg init h) (pop1_ht h rfl rfl rfl rfl)
+
+theorem emitForInit_ht (cfg : Cfg) (i : ForInit) (h : Nat) : HasHt (emitForInit cfg i) h h := by
+  cases i with
+  | none => exact HasHt.nil
+  | expr e => exact (emitG_disc cfg e).2 h
+  | var0 => exact HasHt.nil
+  | varInit c e => exact emitVarInit_ht cfg c e h
+
 theorem ifElse_jneP {a b : Code} {h k : Nat} (ha : HasHt a h k) (hb : HasHt b h k) : HasHt (.ifElse jneP a b) (h + 1) k := by
   have e1 : h + 1 - jneP.popFall = h := by simp [jneP]
   have e2 : h + 1 - jneP.popJump = h := by simp [jneP]
@@ -65,12 +79,7 @@ theorem emitS_ht (cfg : Cfg) : (s : Stmt) → ∀ (nr : Bool) (h : Nat), HasHt (
       exact HasHt.seq (emitE_t cfg e h) (pop1_ht h rfl rfl rfl rfl)
   | .empty, nr, h => by simp only [emitS]; exact clr_ht nr h
   | .varBare, _, h => by simp only [emitS]; exact HasHt.nil
-  | .varInit c init, _, h => by
-    simp only [emitS]
-    split
-    · simp only [cat]
-      exact HasHt.seq (emitVarRef_ht cfg c h) (HasHt.seq (emitE_t cfg init h) (HasHt.seq (pop1_ht h rfl rfl rfl rfl) HasHt.nil))
-    · exact HasHt.seq (emitE_t cfg init h) (pop1_ht h rfl rfl rfl rfl)
+  | .varInit c init, _, h => by simp only [emitS]; exact emitVarInit_ht cfg c init h
   | .block ss, nr, h => by simp only [emitS]; exact emitList_ht cfg ss _ _ h
   | .ifS t a, nr, h => by
     simp only [emitS]
@@ -110,7 +119,7 @@ theorem emitS_ht (cfg : Cfg) : (s : Stmt) → ∀ (nr : Bool) (h : Nat), HasHt (
       exact HasHt.seq (clr_ht nr h) (HasHt.seq (emitS_ht cfg body nr h) (HasHt.seq (optG_ht cfg update h) HasHt.nil))
     simp only [emitS]
     rw [show ∀ a b c, cat [a, b, c] = .seq a (.seq b (.seq c .nil)) from fun _ _ _ => rfl]
-    refine HasHt.seq (optG_ht cfg init h) (HasHt.seq (clr_ht nr h) (HasHt.seq ?_ HasHt.nil))
+    refine HasHt.seq (emitForInit_ht cfg init h) (HasHt.seq (clr_ht nr h) (HasHt.seq ?_ HasHt.nil))
     cases test with
     | none => exact HasHt.forever hbody
     | some t =>
